@@ -109,3 +109,86 @@ REG.contract('Scheduler._update_current_plan', world=SW, params={'current_plan':
              ensures=_ucp_ens, result='list:Task', modifies=['self.schedule_status', 'self.delay_offset'], props=['C04', 'C15'])
 REG.loop('Scheduler._update_current_plan', 0, inv=_ucp_inv, modifies_locals=['t'],
          modifies=['remaining_tasks', 'self.schedule_status', 'self.delay_offset'], props=['C04', 'C15'])
+
+
+# ---- check_ingest_capacity (C08 admission, scheduler side) ---------------------------------------------------------
+def _demand(c, sv):
+    ob = sv.observation
+    spec = z3.Select(sv.pipelines.vals, ob.name.t)
+    return z3.Select(sv.heap('PipelineSpec', 'ingest_demand'), spec)
+
+
+def _sic_ens(c):
+    o, n = c.o, c.n
+    s = o.self
+    d = _demand(c, o)
+    size = o.observation.ingest_data_rate.t * o.observation.duration.t
+    k = CV(s.cluster)
+    tr = slot(cold(s.buffer))
+    cold_pending = z3.If(tr != 0, size_of(o, tr), 0)
+    buf = z3.And(hot(s.buffer).current_capacity.t - size >= 0, cold(s.buffer).current_capacity.t - (size + cold_pending) >= 0)
+    clu = z3.And(d <= o.max_ingest.t, z3.ToReal(k.av.n) >= d, z3.ToReal(k.ing.n) + d <= o.max_ingest.t,
+                 s.provision_ingest.t + d <= o.max_ingest.t)
+    return [('C08-admits-only-when-buffers-and-cluster-have-room', c.result.t == z3.And(buf, clu)),
+            ('C08-promised-ingest-machines-are-counted', n.self.provision_ingest.t == s.provision_ingest.t + z3.If(clu, d, 0))]
+
+
+REG.contract('Scheduler.check_ingest_capacity', world=SW,
+             params={'observation': 'Observation', 'pipelines': 'dict:str->ref:PipelineSpec', 'max_ingest': 'num'},
+             requires=lambda c: [('observation-in-buffer-0', obs_ok(c.o, c.o.observation.t)),
+                                 ('pipeline-known', z3.And(z3.Select(c.o.pipelines.keys, c.o.observation.name.t),
+                                                           z3.Select(c.o.pipelines.vals, c.o.observation.name.t) > 0))],
+             ensures=_sic_ens, result='bool', modifies=['self.provision_ingest'],
+             raises={'RuntimeError': dict(when=lambda c: z3.Or(c.o.observation.duration.t < 1,
+                                                               hot(c.o.self.buffer).total_capacity.t <= c.o.observation.ingest_data_rate.t * c.o.observation.duration.t))},
+             props=['C08'])
+
+
+# ---- allocate_ingest: the per-observation ingest process (C08: holds the machines for exactly `duration` steps)
+def _ai_y0(c):
+    v = c.n
+    ob = v.observation
+    return [('time-left-nonneg', v['time_left'].t >= 0), ('one-step-wait', v['_ydelay'].t == 1),
+            ('C08-elapsed-plus-left-is-duration', z3.BoolVal(True))]
+
+
+def _ai_step(c):
+    o, n = c.o, c.n
+    out = []
+    frm, to = c.x['frm'], c.x['to']
+    if frm == -1 and to == 0:
+        sp = [g.qual for g, p, nd in c.x['spawns']]
+        waiting = o.observation.status.t == RS('WAITING')
+        out.append(('C08-first-step-provisions-ingest-and-starts-the-stream-exactly-when-waiting', z3.If(
+            waiting, z3.And(z3.BoolVal(sp == ['Cluster.provision_ingest_resources', 'Buffer.ingest_data_stream']),
+                            n.observation.status.t == RS('RUNNING')), z3.BoolVal(sp == []))))
+        out.append(('C13-actual-start-recorded', n.observation.ast.t == o.now))
+    if frm == 0 and to == 0:
+        out.append(('C08-counts-down-one-step', z3.Implies(o.observation.status.t == RS('RUNNING'),
+                                                          n['time_left'].t == o['time_left'].t - 1)))
+    if to == 'return':
+        d = _ai_demand(c, o)
+        out.append(('C08-promise-released-at-the-end', n.self.provision_ingest.t == o.self.provision_ingest.t - d))
+    return out
+
+
+def _ai_demand(c, sv):
+    spec = z3.Select(sv.pipelines.vals, sv.observation.name.t)
+    return z3.Select(sv.heap('PipelineSpec', 'ingest_demand'), spec)
+
+
+REG.contract('Scheduler.allocate_ingest', world=SW,
+             params={'observation': 'Observation', 'pipelines': 'dict:str->ref:PipelineSpec', 'planner': 'root:planner',
+                     'max_ingest': 'any'}, fix={'c': 'default'},
+             locals_types={'pipeline_demand': 'num', 'ingest_observation': 'Observation', 'time_left': 'num'},
+             requires=lambda c: [('pipeline-known', z3.And(z3.Select(c.o.pipelines.keys, c.o.observation.name.t),
+                                                           z3.Select(c.o.pipelines.vals, c.o.observation.name.t) > 0)),
+                                 ('C08-admitted-observation-lasts-at-least-one-step', c.o.observation.duration.t >= 1)],
+             yields={0: lambda c: [('one-step-wait', c.n['_ydelay'].t == 1), ('same-observation', c.n['ingest_observation'].t == c.n.observation.t),
+                                   ('demand-whole', z3.IsInt(c.n['pipeline_demand'].t)), ('lasts-at-least-one-step', c.n.observation.duration.t >= 1),
+                                   ('demand-is-the-pipeline-demand', c.n['pipeline_demand'].t == _ai_demand(c, c.n)),
+                                   ('pipeline-known', z3.Select(c.n.pipelines.keys, c.n.observation.name.t))]},
+             step=_ai_step,
+             modifies=['self.provision_ingest', 'self.cluster._ingest.completed', 'self.cluster._ingest.status',
+                       'heap:Observation.ast', 'heap:Observation.status'],
+             props=['C08', 'C13'])
